@@ -115,7 +115,10 @@ func (n *node) String() string                  { return fmt.Sprintf("#%d:%s", n
 type machine struct {
 	nodes   []*node
 	history []string
-	nextID  int
+	// bystanders: resources handed to a wrapper only for their addresses (the connection below a stream-wrapped
+	// connection); no wrapper closes them
+	bystanders []*fake
+	nextID     int
 }
 
 func (m *machine) add(kind string, obj interface{}, children ...*node) *node {
@@ -200,6 +203,11 @@ func (m *machine) sharesLeafWithClosed(n *node) bool {
 }
 
 func (m *machine) invariant(rt *rapid.T) {
+	for _, f := range m.bystanders {
+		if f.closeCount != 0 {
+			rt.Fatalf("a connection that was only lent to a stream-wrapped connection for its addresses was closed %d times (history: %v)", f.closeCount, m.history)
+		}
+	}
 	for _, n := range m.nodes {
 		if n.leaf != nil && n.leaf.closeCount > 1 {
 			rt.Fatalf("underlying resource of %v closed %d times (history: %v)", n, n.leaf.closeCount, m.history)
@@ -237,7 +245,16 @@ var wrappers = []wrapper{
 	}},
 	{"StreamWrappedConnection", "rwc", func(m *machine, a, b *node) interface{} {
 		c, _ := a.rwc()
-		return streams.NewStreamConnection(c, fakeConn{&fake{id: -1}})
+		// the connection "below the stream" is the stream's own resource when that is a connection (the usual way a
+		// stream is layered over a connection), else a connection of its own
+		if a.isFake() {
+			if _, ok := a.obj.(net.Conn); ok {
+				return streams.NewStreamConnection(c, fakeConn{a.leaf})
+			}
+		}
+		other := &fake{id: -1 - len(m.bystanders)}
+		m.bystanders = append(m.bystanders, other)
+		return streams.NewStreamConnection(c, fakeConn{other})
 	}},
 	{"SafeReader", "reader", func(m *machine, a, b *node) interface{} { c, _ := a.reader(); return streams.NewSafeReader(c) }},
 	{"NamedReader", "reader", func(m *machine, a, b *node) interface{} { c, _ := a.reader(); return streams.NewNamedReader(c, "nr") }},
